@@ -14,6 +14,7 @@ import (
 	"crypto/sha256"
 	"encoding/hex"
 	"fmt"
+	"os"
 	"sort"
 	"strings"
 	"sync"
@@ -213,21 +214,33 @@ var _ util.ErrorLogger = (*collectingErrorLogger)(nil)
 
 // node is one entry of a tree description.
 //
-//	kind: "file" | "dir" | "symlink" | "fifo" | "socket" | "absent"
+//	kind: "file" | "dir" | "symlink" | "fifo" | "socket" | "absent" | "hardlink"
 //
 // "absent" only has a meaning in a produced tree (the command removes
 // whatever is there). Directories in a produced tree are merged with
-// what exists; every other kind replaces it.
+// what exists; every other kind replaces it. A "hardlink" is a second
+// name for the regular file `target` in the same directory (if there is
+// no such file, nothing is created).
+//
+// style says how a file comes into being on the virtual file system:
+//
+//	0  created with its final permissions, written once
+//	1  created without x, written with two separate opens, then chmod
+//	2  written under a temporary name and renamed into place
 type node struct {
 	kind     string
 	exec     bool
 	content  int
+	style    int
 	target   string
 	children map[string]*node
 }
 
 func fileN(exec bool, content int) *node { return &node{kind: "file", exec: exec, content: content} }
-func symN(target string) *node          { return &node{kind: "symlink", target: target} }
+func fileS(exec bool, content, style int) *node {
+	return &node{kind: "file", exec: exec, content: content, style: style}
+}
+func symN(target string) *node { return &node{kind: "symlink", target: target} }
 func dirN(kv ...any) *node {
 	n := &node{kind: "dir", children: map[string]*node{}}
 	for i := 0; i+1 < len(kv); i += 2 {
@@ -253,7 +266,9 @@ func (n *node) describe() string {
 		if n.exec {
 			x = "x"
 		}
-		return fmt.Sprintf("f%s%d", x, n.content)
+		return fmt.Sprintf("f%s%d%s", x, n.content, []string{"", "'", "\""}[n.style%3])
+	case "hardlink":
+		return "h(" + n.target + ")"
 	case "symlink":
 		return "l(" + n.target + ")"
 	case "dir":
@@ -280,15 +295,27 @@ type entry struct {
 // The environment of one case.
 
 type env struct {
-	cas        *fakeCAS
-	df         digest.Function
-	logger     *collectingErrorLogger
-	top        virtual.PrepopulatedDirectory
-	inputRoot  builder.BuildDirectory        // what OutputHierarchy is given
-	inputVFS   virtual.PrepopulatedDirectory // the same directory, VFS side
-	ctx        context.Context
-	actionName path.Component
+	cas       *fakeCAS
+	df        digest.Function
+	logger    *collectingErrorLogger
+	ctx       context.Context
+	inputRoot builder.BuildDirectory // what OutputHierarchy is given
+
+	// virtual backend
+	top      virtual.PrepopulatedDirectory
+	inputVFS virtual.PrepopulatedDirectory // the input root, VFS side
+
+	// native backend (native_test.go)
+	nativeBase string
+	nativeRoot string
+	nativeTop  builder.BuildDirectory
 }
+
+func digestFunction() digest.Function {
+	return digest.MustNewFunction("", remoteexecution.DigestFunction_SHA256)
+}
+
+func backgroundContext() context.Context { return context.Background() }
 
 var (
 	actionComponent    = path.MustNewComponent("action")
@@ -303,9 +330,9 @@ var (
 func newEnv(pre *node, lazy bool) (*env, error) {
 	e := &env{
 		cas:    newFakeCAS(),
-		df:     digest.MustNewFunction("", remoteexecution.DigestFunction_SHA256),
+		df:     digestFunction(),
 		logger: &collectingErrorLogger{},
-		ctx:    context.Background(),
+		ctx:    backgroundContext(),
 	}
 	handleAllocator := virtual.NewFUSEHandleAllocator(random.FastThreadSafeGenerator)
 	defaultAttributesSetter := func(requested virtual.AttributesMask, attributes *virtual.Attributes) {}
@@ -431,7 +458,12 @@ func vfsErr(op string, name path.Component, s virtual.Status) error {
 // apply makes the directory look like the description, the way a command
 // running on the FUSE/NFS mount would: through the Virtual* methods.
 func (e *env) apply(d virtual.PrepopulatedDirectory, n *node) error {
-	for _, nameStr := range sortedNames(n.children) {
+	names := sortedNames(n.children)
+	// Hard links last: what they link to has to exist.
+	sort.SliceStable(names, func(i, j int) bool {
+		return n.children[names[i]].kind != "hardlink" && n.children[names[j]].kind == "hardlink"
+	})
+	for _, nameStr := range names {
 		c := n.children[nameStr]
 		name := path.MustNewComponent(nameStr)
 		if c.kind == "dir" {
@@ -465,22 +497,20 @@ func (e *env) apply(d virtual.PrepopulatedDirectory, n *node) error {
 				return err
 			}
 		case "file":
-			perm := virtual.PermissionsRead | virtual.PermissionsWrite
-			if c.exec {
-				perm |= virtual.PermissionsExecute
+			if err := e.createFile(d, name, c); err != nil {
+				return err
 			}
+		case "hardlink":
 			var out virtual.Attributes
-			leaf, _, _, s := d.VirtualOpenChild(e.ctx, name, virtual.ShareMaskWrite, (&virtual.Attributes{}).SetPermissions(perm), nil, 0, &out)
+			target, s := d.VirtualLookup(e.ctx, path.MustNewComponent(c.target), virtual.AttributesMaskFileType, &out)
 			if s != virtual.StatusOK {
-				return vfsErr("create", name, s)
+				continue
 			}
-			data := contents[c.content]
-			if len(data) > 0 {
-				if n, s := leaf.VirtualWrite(e.ctx, data, 0); s != virtual.StatusOK || n != len(data) {
-					return vfsErr("write", name, s)
+			if _, leaf := target.GetPair(); leaf != nil && out.GetFileType() == filesystem.FileTypeRegularFile {
+				if _, s := d.VirtualLink(e.ctx, name, leaf, 0, &virtual.Attributes{}); s != virtual.StatusOK {
+					return vfsErr("link", name, s)
 				}
 			}
-			leaf.VirtualClose(virtual.ShareMaskWrite)
 		case "symlink":
 			var out virtual.Attributes
 			attr := (&virtual.Attributes{}).SetFileType(filesystem.FileTypeSymlink).SetSymlinkTarget(path.UNIXFormat.NewParser(c.target))
@@ -498,6 +528,62 @@ func (e *env) apply(d virtual.PrepopulatedDirectory, n *node) error {
 			}
 		default:
 			return fmt.Errorf("unknown node kind %q", c.kind)
+		}
+	}
+	return nil
+}
+
+var temporaryName = path.MustNewComponent("tmp~")
+
+// createFile creates one regular file the way node.style says.
+func (e *env) createFile(d virtual.PrepopulatedDirectory, name path.Component, c *node) error {
+	finalPerm := virtual.PermissionsRead | virtual.PermissionsWrite
+	if c.exec {
+		finalPerm |= virtual.PermissionsExecute
+	}
+	createPerm, createName := finalPerm, name
+	switch c.style {
+	case 1:
+		createPerm = virtual.PermissionsRead | virtual.PermissionsWrite
+	case 2:
+		createName = temporaryName
+	}
+	data := contents[c.content]
+	first := data
+	if c.style == 1 {
+		first = data[:len(data)/2]
+	}
+	var out virtual.Attributes
+	leaf, _, _, s := d.VirtualOpenChild(e.ctx, createName, virtual.ShareMaskWrite, (&virtual.Attributes{}).SetPermissions(createPerm), nil, 0, &out)
+	if s != virtual.StatusOK {
+		return vfsErr("create", createName, s)
+	}
+	if len(first) > 0 {
+		if n, s := leaf.VirtualWrite(e.ctx, first, 0); s != virtual.StatusOK || n != len(first) {
+			return vfsErr("write", createName, s)
+		}
+	}
+	leaf.VirtualClose(virtual.ShareMaskWrite)
+	switch c.style {
+	case 1:
+		// Append the rest through a second open, then chmod.
+		leaf2, _, _, s := d.VirtualOpenChild(e.ctx, name, virtual.ShareMaskWrite, nil, &virtual.OpenExistingOptions{}, 0, &out)
+		if s != virtual.StatusOK {
+			return vfsErr("reopen", name, s)
+		}
+		rest := data[len(first):]
+		if len(rest) > 0 {
+			if n, s := leaf2.VirtualWrite(e.ctx, rest, uint64(len(first))); s != virtual.StatusOK || n != len(rest) {
+				return vfsErr("append", name, s)
+			}
+		}
+		leaf2.VirtualClose(virtual.ShareMaskWrite)
+		if s := leaf2.VirtualSetAttributes(e.ctx, (&virtual.Attributes{}).SetPermissions(finalPerm), 0, &virtual.Attributes{}); s != virtual.StatusOK {
+			return vfsErr("chmod", name, s)
+		}
+	case 2:
+		if _, _, s := d.VirtualRename(e.ctx, temporaryName, d, name); s != virtual.StatusOK {
+			return vfsErr("rename", name, s)
 		}
 	}
 	return nil
@@ -562,11 +648,29 @@ func (e *env) walk(d virtual.PrepopulatedDirectory, prefix []string, out *[]entr
 
 func (e *env) observe() ([]entry, error) {
 	out := []entry{}
+	if e.nativeRoot != "" {
+		err := walkNative(e.nativeRoot, nil, &out)
+		return out, err
+	}
 	err := e.walk(e.inputVFS, nil, &out)
 	return out, err
 }
 
+// produce lets the "command" leave the described tree behind.
+func (e *env) produce(n *node) error {
+	if e.nativeRoot != "" {
+		return applyNative(e.nativeRoot, n)
+	}
+	return e.apply(e.inputVFS, n)
+}
+
 // release frees everything the case allocated.
 func (e *env) release() {
+	if e.nativeRoot != "" {
+		e.inputRoot.Close()
+		e.nativeTop.Close()
+		os.RemoveAll(e.nativeBase)
+		return
+	}
 	e.top.RemoveAllChildren(true)
 }
